@@ -340,6 +340,9 @@ def call_np(it, name, pos, kw):
             return Arr.fresh("empty", shape_t, d)
         v = {"zeros": 0, "ones": 1}[name]
         return N.np_full(ctx, shape, cast_elem(v, d), d)
+    if name == "empty_like":
+        a = _arr(it, pos[0])
+        return Arr.fresh("empty", tuple(a.shape), dt or a.dtype)
     if name in ("zeros_like", "ones_like"):
         a = _arr(it, pos[0])
         v = 0 if name == "zeros_like" else 1
@@ -379,6 +382,12 @@ def call_np(it, name, pos, kw):
         return N.np_sort(ctx, _arr(it, pos[0]))
     if name == "nonzero":
         return N.np_nonzero(ctx, _arr(it, pos[0]))
+    if name == "flatnonzero":
+        a = _arr(it, pos[0])
+        if len(a.shape) != 1:
+            a = N.flatten(ctx, a, "C")
+        r = N.np_nonzero(ctx, a)
+        return r[0] if isinstance(r, (tuple, list)) else getattr(r, "items", [r])[0]
     if name == "where":
         if len(pos) == 1:
             return N.np_nonzero(ctx, _arr(it, pos[0]))
